@@ -347,6 +347,29 @@ func ruleRelease() check.Rule {
 						c.Report(armed, key, g.Pos, "goroutine loops or blocks (%s at %s) and none of the channels it waits on is closed by the operator's teardown: it is left blocked or looping after unsubscription", blocking[0].What, c.Prog.Rel(blocking[0].Pos))
 					}
 				}
+				// every return of the subscribe closure that can be reached after an un-awaited acquisition returns a teardown
+				for _, tr := range sc.Teardowns {
+					if tr.Val == nil || tr.Val.Kind != model.AVNil || tr.Ctx == nil || tr.Ctx.Kind != model.KBody || len(tr.Stack) > 0 || tr.Expr == nil {
+						continue
+					}
+					if innermostFunc(m, tr.Pkg, tr.Expr) != ast.Node(sc.Lit) {
+						continue
+					}
+					for _, s := range sc.SubSites {
+						if s.Ctx == nil || s.Ctx.Kind != model.KBody || len(s.Stack) > 0 || (s.Src != nil && s.Src.Awaited) || s.Pos > tr.Pos {
+							continue
+						}
+						if innermostFunc(m, s.Pkg, s.Call) != ast.Node(sc.Lit) {
+							continue
+						}
+						if _, isExempt := releaseExempt[sc.String()]; isExempt {
+							continue
+						}
+						if reachableAfter(sc.Lit.Body, s.Call, tr.Expr) {
+							c.Report(armed, s.Key+"/release-on-early-return", tr.Pos, "this return hands back a nil teardown although the subscription taken at %s is live on the path to it: when the subscribe function leaves here nothing can unsubscribe that source", c.Prog.Rel(s.Pos))
+						}
+					}
+				}
 				// teardown presence: an SC that acquires something un-awaited must return a teardown
 				if armed && len(sc.Teardowns) == 0 {
 					c.Undecided(sc.String()+"/teardown", sc.Lit.Pos(), "no return statement with a Teardown value found in the subscribe closure")
